@@ -459,6 +459,37 @@ def rules(ck, P):
                         order.append(nm)
         ck.check(order == ["new_full", "set_zoom_min", "set_zoom_max", "intersect_geo_bbox", "add_border"], "R-SELECT", b["q"] + "|order",
                  "CLI selection narrows a full pyramid: zoom min, zoom max, geo bbox, then border", "CLI selection order is %s" % order, ir.loc(b))
+        # each limit is applied exactly when its option is given, with the option's own value; "no selection" is answered only when no
+        # limiting option is present; the pyramid starts from all 32 levels
+        from . import census
+        nf = [n for n in ir.walk_nodes(b["body"]) if n.get("k") == "call" and (n.get("q") or "").endswith("TileBBoxPyramid::new_full")]
+        ck.check(len(nf) == 1 and ir.const_eval(nf[0]["a"][0], {}) == 32, "R-SELECT", b["q"] + "|full-start", "the selection starts from the full pyramid of all levels (new_full(32))",
+                 "the selection does not start from new_full(32)", ir.loc(b))
+        wired = {}
+        for n, parents, _ in ir.walk(b["body"]):
+            if n.get("k") == "mcall" and (n.get("q") or "").endswith(("TileBBoxPyramid::set_zoom_min", "TileBBoxPyramid::set_zoom_max")):
+                nm = n["q"].rsplit("::", 1)[-1]
+                okw = False
+                for p_ in reversed(parents):
+                    if p_.get("k") == "if" and ir.unparen(p_["c"]).get("k") == "letx":
+                        lx = ir.unparen(p_["c"])
+                        okw = (lx["pat"].get("q") or "").endswith("Option::Some::{Ctor#0}") and ir.place_str(lx["init"]).endswith("." + nm.replace("set_zoom_", "") + "_zoom") and \
+                            ir.local_hid(n["a"][0]) in {x["hid"] for x in ir.pat_binds(lx["pat"])} and ir.contains(p_["then"], lambda z: z is n)
+                        break
+                wired[nm] = okw
+        ck.check(wired == {"set_zoom_min": True, "set_zoom_max": True}, "R-SELECT", b["q"] + "|zoom-options", "--min-zoom / --max-zoom reach set_zoom_min / set_zoom_max with their own value when given",
+                 "zoom options are not wired to their limits: %s" % wired, ir.loc(b))
+        nones = [(n, f) for n, f in census.nodes_with_facts(ir.fn_block(b), lambda y: y.get("k") == "ret" and y.get("e") is not None and
+                                                        ir.contains(y["e"], lambda z: (z.get("q") or "").endswith("Option::None::{Ctor#0}")))]
+        okn = len(nones) == 1
+        if okn:
+            preds = {(f[1].rsplit(".", 1)[-1], f[2], f[4]) for f in nones[0][1] if f[0] == "pred"}
+            okn = {("min_zoom", "is_none", True), ("max_zoom", "is_none", True), ("bbox", "is_none", True)} <= preds
+        ck.check(okn, "R-SELECT", b["q"] + "|no-selection", "`no selection` (None) is returned only when --min-zoom, --max-zoom and --bbox are all absent",
+                 "the CLI answers `no selection` although a limiting option may be present (or always builds one)", ir.loc(b))
+        gl = [n for n in ir.walk_nodes(b["body"]) if n.get("k") == "if" and ir.diverges(n["then"]) and ir.cmp_norm(n["c"]) is not None and ir.cmp_norm(n["c"])[0].endswith(".len()")]
+        ck.check(len(gl) == 1 and ir.cmp_norm(gl[0]["c"])[1:] == ("!=", "4"), "R-SELECT", b["q"] + "|bbox-arity", "a --bbox value is rejected exactly when it does not hold 4 numbers",
+                 "the arity guard of --bbox is %s" % ([ir.cmp_norm(g["c"]) for g in gl]), ir.loc(b))
         # the border option widens all four sides by the same value; TileBBox::add_border subtracts on the min side, adds on the max side
         ab = [n for n in ir.walk_nodes(b["body"]) if n.get("k") == "mcall" and (n.get("q") or "").endswith("TileBBoxPyramid::add_border")]
         if ab:
